@@ -66,6 +66,16 @@ func check(c Case, st *stats) (fs []fail) {
 			l += "/skip-verify"
 		}
 		st.outcomes[l]++
+		// readings the text leaves open and the oracle therefore accepts (MAY), made visible:
+		if len(rf.rootMay) > 0 && o.cfg.RootCAs != nil && len(o.cfg.RootCAs.Subjects()) == len(rf.rootMust) { //nolint:staticcheck
+			st.outcomes["may:ca-file-not-trusted-next-to-loaded-ca"]++
+		}
+		if len(rf.acceptable) == 2 {
+			st.outcomes["may:file-pair-and-loaded-pair-both-usable-one-presented"]++
+		}
+		if c.Insecure && c.ServerName == "" && !o.cfg.InsecureSkipVerify {
+			st.outcomes["may:requested-skip-not-applied"]++
+		}
 	}
 	if o.err != nil || o.panicked != "" || o.opaque || o.cfg == nil {
 		return fs
@@ -400,18 +410,19 @@ func main() {
 	if rot < 0 {
 		rot += n
 	}
+	stride := n/11 + 1
 	enum.Parallel(n, r.OutOfTime, func(i int) {
 		sh := shards[(i+rot)%n]
 		st := &stats{outcomes: map[string]int64{}}
-		for _, fl := range sh.fl {
-			for _, md := range sh.modes {
+		for fi, fl := range sh.fl {
+			for mi, md := range sh.modes {
 				c := mk(md.via, sh.id, sh.ro, fl)
 				c.HTTP = md.http
 				c.Scenarios = md.scen
 				for _, f := range check(c, st) {
 					r.Fail(f.class, f.what, f.c)
 				}
-				if (i+int(r.Seed))%1013 == 7 && r.WantSample() && len(fl.sn) > 0 && fl.cb != "" {
+				if (i+int(r.Seed))%stride == 0 && fi == (i/stride)%len(sh.fl) && mi == 0 && r.WantSample() {
 					r.Sample(c)
 				}
 			}
